@@ -80,7 +80,7 @@ def make_program(rng, hostile):
     for _ in range(rng.randint(0, 3)):
         lines.append((n, [g.simple_stmt()]))
         n += 10
-    where = rng.choice(["str", "data", "rem", "print", "none"]) if hostile else "none"
+    where = rng.choice(["str", "data", "rem", "rem2", "print", "none"]) if hostile else "none"
     if where == "str":
         lines.append((n, [("let", ("var", "H$"), ("str", hostile), False)]))
     elif where == "data":
@@ -90,6 +90,9 @@ def make_program(rng, hostile):
         # unbalanced quotation marks before and after the hostile text (a comment is not a string context)
         lines.append((n, [("rem", rng.choice([" ", ' 5 1/4" DISK - ', ' "" " ', ' "']) + hostile + rng.choice(["", ' "', ' "" "']),
                            rng.choice(["REM", "'"]))]))
+    elif where == "rem2":
+        # the comment is the SECOND statement of its line: it is emitted on a line of its own, starting in column 0
+        lines.append((n, [("let", ("var", "H"), ("num", 1.0, ["1"]), False), ("rem", " " + hostile, rng.choice(["REM", "'"]))]))
     elif where == "print":
         lines.append((n, [("print", [("e", ("str", hostile)), ("sep", ";"), ("e", ("var", "H$"))], None)]))
     n += 10
@@ -117,7 +120,7 @@ def run_case(case):
     size = case["size"]
     pname = case["procname"]
     opts = {"output_dependencies": True, "procname": pname, "default_str_storage": size,
-            "initialize_vars": case["seed"] % 2 == 0}
+            "initialize_vars": case["seed"] % 2 == 0, "filter_unused_linenum": case["seed"] % 3 == 0}
     obs = {"counters": {}, "viols": [], "sets": {}}
     conv = harness.convert(text, **opts)
     plain = harness.convert(text, **dict(opts, output_dependencies=False))
